@@ -581,6 +581,21 @@ int main(int argc, char **argv)
             snprintf(r.key, sizeof(r.key), "%s|deadlock", scens[si].name);
         }
         r.trace_hash = fnv1a(tr->pt, sizeof(sr_point_t) * (size_t) tr->npoints, FNV0);
+        if (is_tsan && !r.violation)
+        {
+            char tkeys[8][200];
+            int ntk = tsan_keys(getenv("MXV_TSAN_LOG") ? getenv("MXV_TSAN_LOG") : "build/tsan-c20", pid, tkeys), q, pick = 0;
+            const char *want = getenv("MXV_EXPECT_KEY");
+            for (q = 0; q < ntk; q++)
+            {
+                if (want && !strcmp(want, tkeys[q])) pick = q;
+            }
+            if (ntk > 0)
+            {
+                r.violation = 1;
+                snprintf(r.key, sizeof(r.key), "%s", tkeys[pick]);
+            }
+        }
         mx_replay_print(&r);
         return 0;
     }
